@@ -1,6 +1,15 @@
+#![allow(dead_code)]
 //! `vh` — conformance harness binding the TLA+ specifications in /verif/spec to the
 //! implementation in /repo (built from the current working tree with --cfg simplesl_verif).
+mod arith;
+mod conc;
+mod eqv;
+mod prec;
+mod print;
 mod probe;
+mod seqs;
+mod stdlibx;
+mod total;
 mod types;
 mod util;
 mod wire;
@@ -20,6 +29,14 @@ fn main() {
         .stack_size(1 << 30)
         .spawn(move || match cmd.as_str() {
             "types" => out(&types::run(&args[2], args.get(3).and_then(|s| s.parse().ok()).unwrap_or(4))),
+            "arith" => out(&arith::run(&args[2..])),
+            "seqs" => out(&seqs::run(&args[2..])),
+            "eqv" => out(&eqv::run(&args[2..])),
+            "prec" => out(&prec::run(&args[2..])),
+            "print" => out(&print::run(&args[2..])),
+            "conc" => out(&conc::run(&args[2..])),
+            "stdlibx" => out(&stdlibx::run(&args[2..])),
+            "total" => out(&total::run(&args[2..])),
             "run" => {
                 let text = if args[2] == "-" { std::io::read_to_string(std::io::stdin()).unwrap() } else { args[2].clone() };
                 out(&probe::run_text(&text, true))
